@@ -24,6 +24,23 @@ CHECKS = {
         note='Transactions are atomic steps (SQLite mode of Mistral); the '
              'reference model (mc/refmodel.py) is trusted as the reading of '
              'the language; corpus bounded as stated in evidence.'),
+    'C13': dict(
+        level='model_checking', design='3/C13', engine='sched-mc',
+        technique='explicit-state model checking of the real scheduler '
+                  'implementations: exhaustive DFS over interleavings of the '
+                  'dispatcher / store-checker / pool-job / client-transaction '
+                  'steps of 1-3 instances with crash injection, virtual clock',
+        text='The real DefaultScheduler (its dispatcher loop, job-store '
+             'checker loop and pool jobs run as controlled activities; '
+             'threading/futures/time replaced by shims) and the real '
+             'LegacyScheduler poll are explored over all interleavings with '
+             'client transactions that schedule 1-3 jobs and commit or roll '
+             'back, with a crash of one instance at any point; every state is '
+             'checked for early / duplicate / rolled-back invocations, '
+             'premature recapture and has_scheduled_jobs answers, every run '
+             'to the horizon for at-least-once / exactly-once.',
+        note='1 s virtual clock, time advances only at quiescence; '
+             'transactions atomic; scenario list and bounds in evidence.'),
 }
 
 NOT_YET = 'check not built yet in this revision (work in progress)'
@@ -62,8 +79,13 @@ def main():
             'add_only': True,
         },
         'engines': [
+            {'name': 'sched-mc', 'path': 'mc/sched_default.py',
+             'serves_properties': ['C13'],
+             'kind_free_text': 'the engine explorer driving the real '
+                               'DefaultScheduler/LegacyScheduler loops'},
             {'name': 'engine-explorer', 'path': 'mc/explore.py',
-             'serves_properties': [p for p in props if p in CHECKS],
+             'serves_properties': [p for p in props if p in CHECKS
+                                   and CHECKS[p].get('engine') is None],
              'kind_free_text': 'explicit-state DFS over the real Mistral '
                                'engine/executor/scheduler under a greenlet '
                                'scheduler, virtual clock and controlled RPC; '
